@@ -934,7 +934,7 @@ class Evaluator:
                 continue
             w, signed = i
             if n["op"] == "Not":
-                out.append((T.lnot(v) if w == 1 else ("bnot", w, v), s))
+                out.append((T.lnot(v) if w == 1 else T.bnot(w, v), s))
             elif n["op"] == "Neg":
                 if not T.is_k(v):
                     s = s.effect(("panic_if", T.cmp("eq", w, v, T.K(w, 1 << (w - 1))), "neg-overflow"))
